@@ -537,6 +537,21 @@ def o10(h, st):
         e = h.raises(lambda: h.call(C, "Circuit.__mul__", a, bad), ValueError)
         h.check(f"mul by {bad} raises ValueError", e is not None)
     h.check("operands unchanged", snapshot(a.__dict__) == sa and snapshot(b.__dict__) == sb)
+    # every gate of a result is its OWN object with its own index lists (a result whose repetitions share one gate object behaves differently under every in-place rewrite)
+    for label, r in (("copy", cp), ("add", s), ("mul", m), ("rmul", rm)):
+        gs = r._gates
+        h.check(f"{label}: the gates of the result are pairwise distinct objects with their own index lists",
+                len({id(g) for g in gs}) == len(gs) and len({id(g.target) for g in gs}) == len(gs) and len({id(g.control) for g in gs if g.control is not None}) == sum(1 for g in gs if g.control is not None))
+    # ... which is what makes a following in-place rewrite act once per gate: relabel the qubits of the products with a 3-cycle and compare with the relabelled repetitions
+    n_q = max(h.getattr(m, "width"), 3)
+    if h.getattr(m, "width") == n_q and m._qubits_simulated in (None, n_q) and len(m._qubit_indices) == n_q:
+        perm = list(range(n_q))
+        perm[0], perm[1], perm[2] = 1, 2, 0
+        expect = [(g.name, [perm[q] for q in g.target], [perm[q] for q in g.control] if g.control else g.control) for g in a._gates * 3]
+        h.call(C, "Circuit.reindex_qubits", m, perm)
+        h.check("mul then reindex_qubits (a 3-cycle): every gate of the product relabelled exactly once", [(g.name, g.target, g.control) for g in m._gates] == expect,
+                detail=f"{[(g.name, g.target, g.control) for g in m._gates][:4]} vs {expect[:4]}")
+    h.check("operands unchanged by the rewrites of the results", snapshot(a.__dict__) == sa and snapshot(b.__dict__) == sb)
     h.done()
 
 
